@@ -84,6 +84,11 @@ func suiteV18(c *vctx) {
 		os.MkdirAll(hooksDir, 0755)
 		os.Remove(hookLog)
 		os.WriteFile(filepath.Join(hooksDir, "log.sh"), []byte("#!/bin/sh\necho \"$WHAWTY_AUTH_STORE\" >> "+hookLog+"\n"), 0755)
+		// … or not (the default): any number of reloads must work just the same
+		withHooks := r.Intn(3) != 0
+		if !withHooks {
+			hooksDir = ""
+		}
 		st, err := NewStore(cfgPath, mode, "", "", hooksDir)
 		if err != nil {
 			c.emit("law.C18.agent_starts "+vxs(err.Error()), "f")
@@ -241,6 +246,9 @@ func suiteV18(c *vctx) {
 			}(cl)
 		}
 		nsig := 1 + r.Intn(3)
+		if !withHooks {
+			nsig += r.Intn(4)
+		}
 		for k := 0; k < nsig; k++ {
 			syscall.Kill(os.Getpid(), syscall.SIGHUP)
 			time.Sleep(time.Duration(5+r.Intn(30)) * time.Millisecond)
@@ -248,31 +256,41 @@ func suiteV18(c *vctx) {
 		time.Sleep(80 * time.Millisecond)
 		close(stop)
 		wg.Wait()
+		if hung > 0 {
+			// the agent no longer answers: nothing more can be asked of it
+			c.emit(fmt.Sprintf("law.C18.requests_in_flight_answered kind=%s signals=%d hooks=%s agent-stopped-answering", kind, nsig, vtf(withHooks)), "f")
+			continue
+		}
 		// which configuration is live? base directory: where does 'probe' authenticate; default and
 		// sets: what a fresh record looks like and which sets verify
 		live := liveCfg{}
-		for _, d := range []string{dirA, dirB} {
-			if ok, _, _, _ := iface.Authenticate("probe", "Probe-in-"+filepath.Base(d)); ok {
-				live.base = d
+		if !bounded(20*time.Second, func() {
+			for _, d := range []string{dirA, dirB} {
+				if ok, _, _, _ := iface.Authenticate("probe", "Probe-in-"+filepath.Base(d)); ok {
+					live.base = d
+				}
 			}
-		}
-		if live.base != "" {
-			iface.Update("probe", "Probe-in-"+filepath.Base(live.base)) // same password, fresh record under the live default
-			pid, _, _ := readRec(live.base, "probe")
-			live.dflt = int(pid)
+			if live.base != "" {
+				iface.Update("probe", "Probe-in-"+filepath.Base(live.base)) // same password, fresh record under the live default
+				pid, _, _ := readRec(live.base, "probe")
+				live.dflt = int(pid)
+			}
+		}) {
+			c.emit(fmt.Sprintf("law.C18.requests_in_flight_answered kind=%s signals=%d hooks=%s agent-stopped-answering-after-the-signals", kind, nsig, vtf(withHooks)), "f")
+			continue
 		}
 		want := old
 		if loadable && dirOk {
 			want = nw
 		}
-		desc := fmt.Sprintf("kind=%s signals=%d live=%s old=%s new=%s", kind, nsig, live, old, nw)
+		desc := fmt.Sprintf("kind=%s signals=%d hooks=%s live=%s old=%s new=%s", kind, nsig, vtf(withHooks), live, old, nw)
 		c.emit("law.C18.reload_all_or_nothing "+desc, vtf(live.base == want.base && live.dflt == want.dflt))
 		// the same against the model of store.reload (Model/Reload.lean)
 		c.emit(fmt.Sprintf("rl.step %s %d %s %d %s %s", vxs(filepath.Base(old.base)), old.dflt, vxs(filepath.Base(nw.base)), nw.dflt, vtf(loadable), vtf(dirOk)),
 			fmt.Sprintf("%s %d", vxs(filepath.Base(live.base)), live.dflt))
 		c.emit("law.C18.requests_in_flight_answered "+desc, vtf(hung == 0 && answered > 0))
 		// never a mixture: the hooks started for a change made AFTER the reload carry the live directory
-		if live.base != "" {
+		if live.base != "" && withHooks {
 			time.Sleep(250 * time.Millisecond) // let rounds that belong to earlier changes pass
 			nBefore := 0
 			if b, err := os.ReadFile(hookLog); err == nil {
